@@ -287,7 +287,7 @@ template <typename T> void obj_history() {
         // truncating DENSE -> SPARSE copy keeps the cut-off elements in the sparse row (defect): visited rarely, and named
         if (w == 1 && (dimension_type) D.n < dim) { bool td = (A.d.representation() == DENSE && r1 == SPARSE) || (A.s.representation() == DENSE && r2 == SPARSE);
           if (td && !risky("truncds", 10)) { if (A.d.representation() == DENSE) r1 = DENSE; if (A.s.representation() == DENSE) r2 = DENSE; td = false; }
-          if (td && !op.empty()) poison() = "truncating-dense-to-sparse"; }
+          if (td && !op.empty()) hx::count("truncating_dense_to_sparse_conversions") /* the defect this used to poison the case for is repaired in /repo */; }
         if (!op.empty() && fragile && poison().empty()) poison() = std::string(sc) + "-special-column-misplaced";
         if (!op.empty()) { tr(pre + op + "[" + rs(r1) + rs(r2) + "]"); Snap before = snap(A.d); T::rand_rep_fixed = r1; T::special(w, A.d, D, true); T::rand_rep_fixed = r2; T::special(w, A.s, D, true);
           if (w <= 1) { checked(); Snap ad = snap(A.d), as = snap(A.s);
